@@ -38,6 +38,9 @@ type c47Member struct {
 	who   string
 	index int
 	late  bool // started only after the competing success
+	// racer: started once everybody else is in place; the competing success
+	// lands during its state query (right after the stub answered "not yet")
+	racer bool
 	run   func() error
 }
 
@@ -62,6 +65,10 @@ type c47Group struct {
 	// gate holds back chain calls made while the members are still being
 	// launched (a member whose slot is the current block submits at once)
 	gate chan struct{}
+	// raceWho: the participant during whose first state query the competing
+	// success lands
+	raceWho   string
+	raceFired bool
 }
 
 func c47NewGroup(height uint64, winner int) *c47Group {
@@ -101,6 +108,21 @@ func (g *c47Group) endCall(idx int, outcome string) {
 	g.mu.Lock()
 	g.calls[idx].End, g.calls[idx].Outcome = s, outcome
 	g.mu.Unlock()
+}
+
+// raceNow is called by the chain stub inside a state query, after it has
+// computed the ("not yet") answer and before it returns it. It reports
+// whether the competing success must land now; the stub then performs it
+// (state flip + event to whoever is subscribed at this instant) and only
+// afterwards returns the stale answer to the member.
+func (g *c47Group) raceNow(who string) bool {
+	g.mu.Lock()
+	defer g.mu.Unlock()
+	if g.raceWho == "" || g.raceWho != who || g.raceFired || g.done {
+		return false
+	}
+	g.raceFired = true
+	return true
 }
 
 func (g *c47Group) isDone() bool { g.mu.Lock(); defer g.mu.Unlock(); return g.done }
@@ -226,10 +248,12 @@ func (g *c47Group) await(cond func() bool) bool {
 // chain calls that were nevertheless observed after the success).
 func (g *c47Group) drive(r *verifkit.Run, desc string, members []*c47Member, extBlock uint64, memberOf func(owner string) string) (conclusive bool) {
 	conclusive = true
-	var late []*c47Member
+	var late, racers []*c47Member
 	for _, m := range members {
 		if m.late {
 			late = append(late, m)
+		} else if m.racer {
+			racers = append(racers, m)
 		} else {
 			g.launch(r, desc, m)
 		}
@@ -237,7 +261,7 @@ func (g *c47Group) drive(r *verifkit.Run, desc string, members []*c47Member, ext
 	if !g.await(func() bool {
 		ws := g.waits()
 		for _, m := range members {
-			if !m.late && len(ws[m.who]) == 0 && !g.isReturned(m.who) {
+			if !m.late && !m.racer && len(ws[m.who]) == 0 && !g.isReturned(m.who) {
 				return false
 			}
 		}
@@ -268,6 +292,23 @@ func (g *c47Group) drive(r *verifkit.Run, desc string, members []*c47Member, ext
 			r.Inconclusive("members eligible at the launch block neither submitted nor returned")
 			return false
 		}
+	}
+	// the racers join now, at the same block: the success lands inside
+	// their state query
+	for _, m := range racers {
+		g.launch(r, desc, m)
+	}
+	if len(racers) > 0 && !g.await(func() bool {
+		ws := g.waits()
+		for _, m := range racers {
+			if len(ws[m.who]) == 0 && !g.isReturned(m.who) {
+				return false
+			}
+		}
+		return true
+	}) {
+		r.Inconclusive("the racing member neither reached its eligibility wait nor returned")
+		return false
 	}
 	post := false
 	for {
@@ -366,7 +407,13 @@ type c47Chain struct {
 func (c *c47Chain) GetConfig() *beaconchain.Config { return c.config }
 
 func (c *c47Chain) IsGroupRegistered(groupPublicKey []byte) (bool, error) {
-	return c.g.isDone(), nil
+	answer := c.g.isDone()
+	if !answer && c.g.raceNow(c.who) {
+		// the competing submission lands between this answer and whatever
+		// the member does next
+		c.g.externalSuccess()
+	}
+	return answer, nil
 }
 
 func (c *c47Chain) OnDKGResultSubmitted(
@@ -406,10 +453,20 @@ type c47Script struct {
 	Winner  int    `json:"winning_call"`   // k-th chain call succeeds (0: none)
 	ExtAt   uint64 `json:"external_at"`    // block at which an outsider succeeds (0: never)
 	Late    []int  `json:"late_members"`   // started after the success
+	Racer   int    `json:"racing_member,omitempty"` // the success lands during this member's IsGroupRegistered query
 	Variant string `json:"variant"`
 }
 
 func c47Owner(i int) string { return fmt.Sprintf("m%d", i) }
+
+func c47LateHas(l []int, x int) bool {
+	for _, y := range l {
+		if y == x {
+			return true
+		}
+	}
+	return false
+}
 
 func c47RunDKG(r *verifkit.Run, sc c47Script) {
 	desc := "beacon-dkg-result " + verifkit.JSON(sc)
@@ -429,6 +486,9 @@ func c47RunDKG(r *verifkit.Run, sc c47Script) {
 	for _, i := range sc.Late {
 		lateSet[i] = true
 	}
+	if sc.Racer != 0 {
+		g.raceWho = c47Owner(sc.Racer)
+	}
 	var members []*c47Member
 	for i := 1; i <= sc.N; i++ {
 		i := i
@@ -436,7 +496,7 @@ func c47RunDKG(r *verifkit.Run, sc c47Script) {
 		ch := &c47Chain{g: g, who: who, config: config}
 		view := g.clk.View(who)
 		sm := NewSubmittingMember(&testutils.MockLogger{}, group.MemberIndex(i))
-		members = append(members, &c47Member{who: who, index: i, late: lateSet[i], run: func() error {
+		members = append(members, &c47Member{who: who, index: i, late: lateSet[i], racer: i == sc.Racer, run: func() error {
 			return sm.SubmitDKGResult(result, signatures, ch, view, sc.Start)
 		}})
 	}
@@ -450,6 +510,11 @@ func c47RunDKG(r *verifkit.Run, sc c47Script) {
 	g.mu.Unlock()
 	r.Case(desc, done)
 	r.Count("chain_calls", int64(len(calls)))
+	g.mu.Lock()
+	if g.raceFired {
+		r.Count("success_landed_during_state_check", 1)
+	}
+	g.mu.Unlock()
 	r.Count("slots_observed", int64(len(ws)))
 
 	slotOf := map[string]uint64{}
@@ -458,6 +523,9 @@ func c47RunDKG(r *verifkit.Run, sc c47Script) {
 		bl := ws[m.who]
 		if m.late {
 			continue
+		}
+		if m.racer && len(bl) == 0 {
+			continue // it may leave without ever waiting
 		}
 		if len(bl) != 1 {
 			r.Violation("beacon-dkg:no-single-slot", fmt.Sprintf("member %d registered %d eligibility waits (expected exactly one)", m.index, len(bl)), desc, bl)
@@ -484,7 +552,11 @@ func c47RunDKG(r *verifkit.Run, sc c47Script) {
 		callers[c.Who]++
 		slot, has := slotOf[c.Who]
 		if done && c.Start > successSeq && c.Outcome != "succeeded" {
-			r.Violation("beacon-dkg:submit-after-success", fmt.Sprintf("%s started a submission at block %d after the result had been submitted at block %d", c.Who, c.Block, successBlock), desc, calls)
+			fp := "beacon-dkg:submit-after-success"
+			if sc.Racer != 0 {
+				fp += ":landed-during-state-check"
+			}
+			r.Violation(fp, fmt.Sprintf("%s started a submission at block %d after the result had been submitted at block %d", c.Who, c.Block, successBlock), desc, calls)
 			continue
 		}
 		if !has {
@@ -504,7 +576,7 @@ func c47RunDKG(r *verifkit.Run, sc c47Script) {
 		// exactly the members whose slot is not after the success submit
 		for _, m := range members {
 			slot, has := slotOf[m.who]
-			if !has {
+			if !has || m.racer {
 				continue
 			}
 			// the clock stops at every waited block, so a call happens at its
@@ -531,7 +603,7 @@ func c47RunDKG(r *verifkit.Run, sc c47Script) {
 func TestVerif_C47_BeaconDKGResult(t *testing.T) {
 	r := verifkit.Start(t, "C47", "beacon-dkg-result")
 	defer r.Finish()
-	r.SetRule("group runs of SubmittingMember.SubmitDKGResult: all members 1..N (N in 3..64, every N once plus PRNG repeats) concurrently on one virtual clock and one chain stub; step in {1,2,3,5}; variants: nobody succeeds (every slot exercised), the k-th submission succeeds (k PRNG, biased to 1, 2, N), an outsider succeeds at a PRNG block, members joining after the success. non-trivial = a competing success happened in the run")
+	r.SetRule("group runs of SubmittingMember.SubmitDKGResult: all members 1..N (N in 3..64, every N once plus PRNG repeats) concurrently on one virtual clock and one chain stub; step in {1,2,3,5}; variants: nobody succeeds (every slot exercised), the k-th submission succeeds (k PRNG, biased to 1, 2, N), an outsider succeeds at a PRNG block, members joining after the success, and race-state: one member joins last and the competing success (state flip + event to the subscribers of that instant) lands inside its IsGroupRegistered query right after the stub answered false. non-trivial = a competing success happened in the run")
 	r.Assume("a failing submission returns an error to the member; the success event reaches every subscriber on its own goroutine; blocks advance only after the released members finished their chain call or returned")
 	rng := r.Rand("scripts")
 	var scripts []c47Script
@@ -551,6 +623,12 @@ func TestVerif_C47_BeaconDKGResult(t *testing.T) {
 		}
 		early := n - len(sc.Late)
 		switch variant {
+		case "race-state":
+			// nobody is eligible at launch: the racer can only leave through the event
+			sc.Height = sc.Start - 1 - uint64(rng.Intn(2))
+			for sc.Racer == 0 || c47LateHas(sc.Late, sc.Racer) {
+				sc.Racer = 1 + rng.Intn(n)
+			}
 		case "nobody":
 		case "winner":
 			sc.Winner = []int{1, 2, early, 1 + rng.Intn(early), 1 + rng.Intn(early)}[rng.Intn(5)]
@@ -562,8 +640,11 @@ func TestVerif_C47_BeaconDKGResult(t *testing.T) {
 	for n := 3; n <= 64; n++ {
 		add(n, []string{"nobody", "winner", "external"}[n%3])
 	}
+	for n := 3; n <= 64; n += 4 {
+		add(n, "race-state")
+	}
 	for i := r.N(100, 3000); i > 0; i-- {
-		add(3+rng.Intn(62), []string{"nobody", "winner", "winner", "external"}[rng.Intn(4)])
+		add(3+rng.Intn(62), []string{"nobody", "winner", "winner", "external", "race-state"}[rng.Intn(5)])
 	}
 	verifkit.Parallel(len(scripts), 0, func(i int) { c47RunDKG(r, scripts[i]) })
 }
